@@ -213,6 +213,7 @@ class Latent(Harness):
         S = list(self.params["subset"])
         d = inp["data"]
         out = {}
+        before = {k: list(cells(inp[k])) for k in ("xi", "xb", "xr")}
         ps = make_problem(fam, "Subset", d, n, t, len(S))
         out["sub"] = ps.latentfn(numpy.array(S))
         out["sub_perm"] = ps.latentfn(numpy.array(S[::-1]))
@@ -227,6 +228,13 @@ class Latent(Harness):
         out["real_of_S"] = pr.latentfn(counts / float(len(S)))
         out["real"] = pr.latentfn(inp["xr"])
         out["real_scaled"] = pr.latentfn(inp["xr"] * inp["lam"])
+
+        def same(a, b):
+            if isinstance(a, SV) and isinstance(b, SV):
+                return a.e.eq(b.e)
+            return (not isinstance(a, SV)) and (not isinstance(b, SV)) and a == b
+        out["x_unchanged"] = {k: all(same(a, b) for a, b in zip(before[k], cells(inp[k]))) for k in before}
+        out["x_before"] = before
         return out
 
     def check(self, P, inp, out):
@@ -238,7 +246,9 @@ class Latent(Harness):
         for a in ("sub_perm", "int_of_S", "bin_of_S", "real_of_S"):
             for pos, (x, y) in enumerate(zip(cells(out[a]), cells(out["sub"]))):
                 P.prove(same_latent(P, fam, x, y) if not (fam == "OCS" and pos > 0) else P.eq(x, y), "encodings-of-the-same-contributions-agree:" + a)
-        for key, xs in (("int", cells(inp["xi"])), ("bin", cells(inp["xb"])), ("real", cells(inp["xr"]))):
+        for k, ok in out["x_unchanged"].items():
+            P.prove(ok, "evaluating-the-latent-function-leaves-the-decision-vector-untouched", detail=k)
+        for key, xs in (("int", out["x_before"]["xi"]), ("bin", out["x_before"]["xb"]), ("real", out["x_before"]["xr"])):
             tot = sum(xs[1:], xs[0])
             c = [sym.sv_div_nofork(x, tot) if isinstance(tot, SV) or isinstance(x, SV) else x / float(tot) for x in xs]
             compare(P, out[key], reference(fam, d, c, n, t), key)
@@ -461,8 +471,61 @@ class GWFactory(Harness):
                     P.prove(P.close(cell(out[enc], i, tr), ref), "table=Z.(u*w) with w=p^-alpha (1 where the favourable allele is absent)", detail="%s encoding" % enc)
 
 
+class L1Factory(Harness):
+    """L1-norm genomic selection problems built from raw arrays: latent[t] = sum_p | sum_n c_n * w[p,t] * (f[n,p] - target[p,t]) |
+    (distance of the selection's allele frequencies from the target, weighted per marker and trait), identical for the four encodings"""
+    name = "factory-l1-norm"
+    tol = 1e-7
+
+    def modules(self):
+        return MODS + [PKG + "L1NormGenomicSelectionProblem"]
+
+    def inputs(self, mk):
+        n, p, t = self.params["n"], self.params["p"], self.params["t"]
+        return dict(w=mk.real("w", (p, t), lo=0, hi=4), f=mk.real("f", (n, p), lo=0, hi=1), tg=mk.real("g", (p, t), lo=0, hi=1))
+
+    def call(self, inp, mk):
+        n, p, t = self.params["n"], self.params["p"], self.params["t"]
+        S = list(self.params["subset"])
+        counts = numpy.array([S.count(i) for i in range(n)])
+        mod = importlib.import_module(PKG + "L1NormGenomicSelectionProblem")
+        out = {}
+        for enc in ENC:
+            C = getattr(mod, "L1NormGenomic%sSelectionProblem" % enc)
+            k = len(S) if enc == "Subset" else n
+            z, o = (0.0, 1.0) if enc == "Real" else (0, 1)
+            common = dict(ndecn=k, decn_space=numpy.arange(n) if enc == "Subset" else numpy.stack([numpy.repeat(z, n), numpy.repeat(o, n)]),
+                          decn_space_lower=numpy.repeat(z, k), decn_space_upper=numpy.repeat(n - 1 if enc == "Subset" else o, k), nobj=t)
+            prob = C.from_numpy(inp["w"], inp["f"], inp["tg"], **common)
+            x = {"Subset": numpy.array(S), "Integer": counts, "Binary": (counts > 0).astype(int), "Real": counts / float(len(S))}[enc]
+            out[enc] = prob.latentfn(x)
+        return out
+
+    def check(self, P, inp, out):
+        n, p, t = self.params["n"], self.params["p"], self.params["t"]
+        S = list(self.params["subset"])
+        for enc in ENC:
+            if enc == "Binary":
+                present = [1.0 if i in S else 0.0 for i in range(n)]
+                c = [v / sum(present) for v in present]
+            else:
+                c = [S.count(i) / float(len(S)) for i in range(n)]
+            for tr in range(t):
+                tot = 0.0
+                for k in range(p):
+                    inner = 0.0
+                    for i in range(n):
+                        inner = inner + c[i] * cell(inp["w"], k, tr) * (cell(inp["f"], i, k) - cell(inp["tg"], k, tr))
+                    tot = tot + (Ite(inner >= 0, inner, -inner) if isinstance(inner, SV) else abs(inner))
+                P.prove(P.eq(cell(out[enc], tr), tot, 1e-7), "latent=weighted-L1-distance-of-selection-frequencies-from-the-target", detail="%s encoding, trait %d" % (enc, tr))
+
+
 def obligations(tier):
     obs = []
+    obs.append(L1Factory(n=2, p=2, t=2, subset=[1, 0]))
+    if tier == "thorough":
+        obs.append(L1Factory(n=3, p=2, t=2, subset=[2, 0]))
+        obs.append(L1Factory(n=2, p=1, t=1, subset=[0]))
     for fafreq, alpha in ([([0.0, 0.25], 1), ([1.0, 0.0], 0.5)] if tier == "quick" else [([0.0, 0.25], 1), ([1.0, 0.0], 0.5), ([0.0, 0.0], 0), ([0.5, 1.0], 2)]):
         obs.append(GWFactory(n=2, m=2, t=1, fafreq=fafreq, alpha=alpha))
     for fam in FAMILIES:
